@@ -4,7 +4,8 @@
       appear in the same order as the signatures (inductive definition; [increasing_map] is the same
       thing said with an explicit strictly increasing index map);
     - [strict_der]: the BIP66 grammar of a DER signature (the bytes before the hash-type byte);
-    - [low_s]: BIP62 rule 5 / BIP146: S at most half the group order of secp256k1.
+    - [low_s]: BIP62 rule 5 / BIP146: S at most half the group order of secp256k1, for signatures whose
+      R and S are below the group order.
 
     Nothing here mentions the interpreter model. *)
 From Coq Require Import List NArith Lia Bool.
@@ -55,12 +56,16 @@ Definition strict_der (b : bytes) : Prop :=
         x02 :: n2b (N.of_nat (length Sv)) :: Sv /\
     der_integer R /\ der_integer Sv /\ length b <= 72.
 
-(** the S component of a strict-DER signature, as a number (big endian) *)
+(** the components of a strict-DER signature as numbers (big endian).  BIP62 rule 5 / BIP146 (LOW_S):
+    S at most half the group order.  The rule speaks of signatures in range: when R or S is not below
+    the group order the signature is not the "high twin" of anything (the node's parser reads it as the
+    null signature, which is not high) -- it simply never verifies. *)
 Definition secp256k1_order : N := 0xFFFFFFFFFFFFFFFFFFFFFFFFFFFFFFFEBAAEDCE6AF48A03BBFD25E8CD0364141.
-Definition low_s (Sv : bytes) : Prop := (be_dec Sv <= secp256k1_order / 2)%N.
+Definition in_range (R Sv : bytes) : Prop := (be_dec R < secp256k1_order)%N /\ (be_dec Sv < secp256k1_order)%N.
+Definition low_s (R Sv : bytes) : Prop := in_range R Sv -> (be_dec Sv <= secp256k1_order / 2)%N.
 
 Definition strict_der_low_s (b : bytes) : Prop :=
   exists R Sv : bytes,
     b = x30 :: n2b (N.of_nat (4 + length R + length Sv)) :: x02 :: n2b (N.of_nat (length R)) :: R ++
         x02 :: n2b (N.of_nat (length Sv)) :: Sv /\
-    der_integer R /\ der_integer Sv /\ length b <= 72 /\ low_s Sv.
+    der_integer R /\ der_integer Sv /\ length b <= 72 /\ low_s R Sv.
